@@ -2,6 +2,7 @@ import Chartparse.Proofs.Round
 import Chartparse.Proofs.ReTS
 import Chartparse.Proofs.ReNorm
 import Chartparse.Model.Chart
+import Chartparse.Proofs.ReLine
 /-! Property theorems of C08 (statements only; helper lemmas live in `Proofs/`). -/
 namespace Chartparse.Props.C08
 open Chartparse Chartparse.Rx Chartparse.F64
@@ -64,6 +65,21 @@ theorem gen_ts_accept3 (p t u l q : Str) (hp : AllIn .space p) (ht : AllIn .digi
     Gen.tsRe.matchGroups (p ++ (t ++ ([32, 61, 32, 84, 83, 32] ++ (u ++ (32 :: (l ++ q))))))
       = some [(3, l), (2, u), (1, t)] := by
   rw [matchGroups_of_norm_eq gen_ts_is_template]; exact Chartparse.Rx.ts_accept3 p t u l q hp ht ht0 hu hu0 hl hl0 hq
+
+theorem gen_bpm_is_template : Gen.bpmRe.norm = bpmT.norm := by decide
+theorem gen_anchor_is_template : Gen.anchorRe.norm = anchorT.norm := by decide
+
+/-- C08: every `<tick> = B <n>` line is accepted with the raw digit strings as written -/
+theorem C08_bpm_accept (p t l q : Str) (hp : AllIn .space p) (ht : AllIn .digit t) (ht0 : t ≠ [])
+    (hl : AllIn .digit l) (hl0 : l ≠ []) (hq : AllIn .space q) :
+    Gen.bpmRe.matchGroups (p ++ (t ++ ([32, 61, 32, 66, 32] ++ (l ++ q)))) = some [(2, l), (1, t)] := by
+  rw [matchGroups_of_norm_eq gen_bpm_is_template]; exact Chartparse.Rx.bpm_accept p t l q hp ht ht0 hl hl0 hq
+
+/-- C08: every `<tick> = A <us>` line (no trailing blanks: the shipped pattern ends in `$`) is accepted -/
+theorem C08_anchor_accept (p t l : Str) (hp : AllIn .space p) (ht : AllIn .digit t) (ht0 : t ≠ [])
+    (hl : AllIn .digit l) (hl0 : l ≠ []) :
+    Gen.anchorRe.matchGroups (p ++ (t ++ ([32, 61, 32, 65, 32] ++ l))) = some [(2, l), (1, t)] := by
+  rw [matchGroups_of_norm_eq gen_anchor_is_template]; exact Chartparse.Rx.anchor_accept p t l hp ht ht0 hl hl0
 
 /-- non-vacuity: a concrete TS line with exotic padding and Arabic-Indic digits -/
 example : Gen.tsRe.matchGroups ([9, 160] ++ ([1634, 48] ++ ([32, 61, 32, 84, 83, 32] ++ ([54] ++ (32 :: ([51] ++ [32]))))))
